@@ -73,7 +73,7 @@ Definition valid_H (noise : bool) (d n : nat) (es : list entry_d) : Prop :=
   es <> [] /\ Forall (good_entry d n) es /\ (ids_explicit es = true -> uniqueb (entry_ids noise es) = true).
 Definition valid_ctor (d : nat) (k : ctor_d) : Prop :=
   let n := length (dt_vals (k_dt k)) in
-  dt_haslen (k_dt k) = true /\ Forall (fun v => v = DPos \/ v = DZero) (dt_vals (k_dt k)) /\
+  dt_haslen (k_dt k) = true /\ (Forall (fun v => v = DPos \/ v = DZero) (dt_vals (k_dt k)) /\ dt_vals (k_dt k) <> []) /\
   (exists es, k_Hc k = HList es /\ valid_H false d n es) /\ (exists es, k_Hn k = HList es /\ valid_H true d n es) /\
   (k_basis k = BDefault \/ exists m, k_basis k = BBasis [m; d; d]).
 
@@ -106,15 +106,23 @@ Proof.
   destruct (ids_explicit es) eqn:E; simpl; [rewrite (Hid eq_refl); reflexivity | reflexivity].
 Qed.
 
-Theorem validate_ctor_sound d k : valid_ctor d k -> validate_ctor k = ok.
+(* when the durations pass their tests the verdict is that of the rest of the parser *)
+Lemma ctor_dt_ok k : dt_haslen (k_dt k) = true -> Forall (fun v => v = DPos \/ v = DZero) (dt_vals (k_dt k)) -> dt_vals (k_dt k) <> [] ->
+  validate_ctor k = validate_ctor_rest k.
 Proof.
-  intros (H1 & H2 & (ec & Ec & Vc) & (en & En & Vn) & Hb). unfold validate_ctor.
-  rewrite H1. simpl.
+  intros H1 H2 H3. unfold validate_ctor. rewrite H1.
+  assert (L : (length (dt_vals (k_dt k)) =? 0) = false) by (destruct (dt_vals (k_dt k)); [congruence | reflexivity]).
   assert (R : forallb dtv_real (dt_vals (k_dt k)) = true).
   { rewrite forallb_forall. intros v Hv. rewrite Forall_forall in H2. destruct (H2 v Hv); subst; reflexivity. }
   assert (P : forallb dtv_nonneg (dt_vals (k_dt k)) = true).
   { rewrite forallb_forall. intros v Hv. rewrite Forall_forall in H2. destruct (H2 v Hv); subst; reflexivity. }
-  rewrite R, P. simpl. rewrite Ec, En, (validate_H_sound _ _ _ _ Vc), (validate_H_sound _ _ _ _ Vn).
+  rewrite L, R, P. reflexivity.
+Qed.
+
+Theorem validate_ctor_sound d k : valid_ctor d k -> validate_ctor k = ok.
+Proof.
+  intros (H1 & H2 & (ec & Ec & Vc) & (en & En & Vn) & Hb). rewrite ctor_dt_ok by tauto. unfold validate_ctor_rest.
+  rewrite Ec, En, (validate_H_sound _ _ _ _ Vc), (validate_H_sound _ _ _ _ Vn).
   rewrite shape_eqb_refl. simpl.
   destruct Hb as [-> | [m ->]]; [reflexivity|]. simpl. rewrite shape_eqb_refl. reflexivity.
 Qed.
@@ -123,17 +131,25 @@ Qed.
 Theorem ctor_complete_dt_no_len d k : valid_ctor d k ->
   validate_ctor (Build_ctor_d (Build_dt_d false (dt_vals (k_dt k))) (k_Hc k) (k_Hn k) (k_basis k)) = Raise TypeError.
 Proof. reflexivity. Qed.
+Theorem ctor_complete_dt_empty d k : valid_ctor d k ->
+  validate_ctor (Build_ctor_d (Build_dt_d true []) (k_Hc k) (k_Hn k) (k_basis k)) = Raise ValueError.
+Proof. reflexivity. Qed.
 
-Theorem ctor_complete_dt_value d k i v : valid_ctor d k -> i < length (dt_vals (k_dt k)) -> v = DNeg \/ v = DComplex ->
+(* a negative, complex or non-finite (nan, inf) duration at any position *)
+Theorem ctor_complete_dt_value d k i v : valid_ctor d k -> i < length (dt_vals (k_dt k)) -> v = DNeg \/ v = DComplex \/ v = DNonFinite ->
   validate_ctor (Build_ctor_d (Build_dt_d true (upd (dt_vals (k_dt k)) i v)) (k_Hc k) (k_Hn k) (k_basis k)) = Raise ValueError.
 Proof.
-  intros (H1 & H2 & _) Hi Hv. unfold validate_ctor. simpl.
+  intros (H1 & (H2 & H3) & _) Hi Hv. unfold validate_ctor. cbn [k_dt dt_haslen dt_vals check bind].
+  assert (L : (length (upd (dt_vals (k_dt k)) i v) =? 0) = false) by (rewrite upd_len; apply Nat.eqb_neq; lia).
+  rewrite L. cbn [negb check bind].
   assert (R : forallb dtv_real (dt_vals (k_dt k)) = true).
   { rewrite forallb_forall. intros w Hw. rewrite Forall_forall in H2. destruct (H2 w Hw); subst; reflexivity. }
-  destruct Hv as [-> | ->].
-  - rewrite (forallb_upd_true dtv_real _ i DNeg R eq_refl). simpl.
+  destruct Hv as [-> | [-> | ->]].
+  - rewrite (forallb_upd_true dtv_real _ i DNeg R eq_refl). cbn [check bind].
     rewrite (forallb_upd_false dtv_nonneg _ i DNeg Hi eq_refl). reflexivity.
   - rewrite (forallb_upd_false dtv_real _ i DComplex Hi eq_refl). reflexivity.
+  - rewrite (forallb_upd_true dtv_real _ i DNonFinite R eq_refl). cbn [check bind].
+    rewrite (forallb_upd_false dtv_nonneg _ i DNonFinite Hi eq_refl). reflexivity.
 Qed.
 
 (* --- corruptions of one entry of a Hamiltonian, at every position *)
@@ -256,13 +272,7 @@ Theorem ctor_complete_entry d k (noise : bool) es i c :
                    (if noise then HList (upd es i (apply_e d (length (dt_vals (k_dt k))) c (nth i es e0))) else k_Hn k)
                    (k_basis k)) = Raise (ecorr_class c).
 Proof.
-  intros (H1 & H2 & (ec & Ec & Vc) & (en & En & Vn) & Hb) HH Hi. unfold validate_ctor. simpl.
-  rewrite H1. simpl.
-  assert (R : forallb dtv_real (dt_vals (k_dt k)) = true).
-  { rewrite forallb_forall. intros v Hv. rewrite Forall_forall in H2. destruct (H2 v Hv); subst; reflexivity. }
-  assert (P : forallb dtv_nonneg (dt_vals (k_dt k)) = true).
-  { rewrite forallb_forall. intros v Hv. rewrite Forall_forall in H2. destruct (H2 v Hv); subst; reflexivity. }
-  rewrite R, P. simpl. destruct noise.
+  intros (H1 & H2 & (ec & Ec & Vc) & (en & En & Vn) & Hb) HH Hi. rewrite ctor_dt_ok by (cbn [k_dt]; tauto). unfold validate_ctor_rest. cbn [k_dt k_Hc k_Hn k_basis]. destruct noise.
   - rewrite Ec, (validate_H_sound _ _ _ _ Vc). rewrite En in HH. inversion HH; subst en.
     rewrite (validate_H_complete true d _ es i c Vn Hi). reflexivity.
   - rewrite Ec in HH. inversion HH; subst ec.
@@ -273,24 +283,14 @@ Qed.
 Theorem ctor_complete_H_not_list d k (noise : bool) : valid_ctor d k ->
   validate_ctor (Build_ctor_d (k_dt k) (if noise then k_Hc k else HNotList) (if noise then HNotList else k_Hn k) (k_basis k)) = Raise TypeError.
 Proof.
-  intros (H1 & H2 & (ec & Ec & Vc) & _). unfold validate_ctor. simpl. rewrite H1. simpl.
-  assert (R : forallb dtv_real (dt_vals (k_dt k)) = true).
-  { rewrite forallb_forall. intros v Hv. rewrite Forall_forall in H2. destruct (H2 v Hv); subst; reflexivity. }
-  assert (P : forallb dtv_nonneg (dt_vals (k_dt k)) = true).
-  { rewrite forallb_forall. intros v Hv. rewrite Forall_forall in H2. destruct (H2 v Hv); subst; reflexivity. }
-  rewrite R, P. simpl. destruct noise; [rewrite Ec, (validate_H_sound _ _ _ _ Vc)|]; reflexivity.
+  intros (H1 & H2 & (ec & Ec & Vc) & _). rewrite ctor_dt_ok by (cbn [k_dt]; tauto). unfold validate_ctor_rest. cbn [k_dt k_Hc k_Hn k_basis]. destruct noise; [rewrite Ec, (validate_H_sound _ _ _ _ Vc)|]; reflexivity.
 Qed.
 
 Theorem ctor_complete_basis d k b : valid_ctor d k ->
   b = BNotBasis \/ (exists m d', b = BBasis [m; d'; d'] /\ d' <> d) ->
   validate_ctor (Build_ctor_d (k_dt k) (k_Hc k) (k_Hn k) b) = Raise ValueError.
 Proof.
-  intros (H1 & H2 & (ec & Ec & Vc) & (en & En & Vn) & _) Hb. unfold validate_ctor. simpl. rewrite H1. simpl.
-  assert (R : forallb dtv_real (dt_vals (k_dt k)) = true).
-  { rewrite forallb_forall. intros v Hv. rewrite Forall_forall in H2. destruct (H2 v Hv); subst; reflexivity. }
-  assert (P : forallb dtv_nonneg (dt_vals (k_dt k)) = true).
-  { rewrite forallb_forall. intros v Hv. rewrite Forall_forall in H2. destruct (H2 v Hv); subst; reflexivity. }
-  rewrite R, P. simpl. rewrite Ec, En, (validate_H_sound _ _ _ _ Vc), (validate_H_sound _ _ _ _ Vn), shape_eqb_refl. simpl.
+  intros (H1 & H2 & (ec & Ec & Vc) & (en & En & Vn) & _) Hb. rewrite ctor_dt_ok by (cbn [k_dt]; tauto). unfold validate_ctor_rest. cbn [k_dt k_Hc k_Hn k_basis]. rewrite Ec, En, (validate_H_sound _ _ _ _ Vc), (validate_H_sound _ _ _ _ Vn), shape_eqb_refl. simpl.
   destruct Hb as [-> | (m & d' & -> & Hd)]; [reflexivity|]. simpl.
   unfold shape_eqb. simpl. replace (d' =? d) with false by (symmetry; apply Nat.eqb_neq; lia). reflexivity.
 Qed.
@@ -302,12 +302,7 @@ Theorem ctor_complete_dimension d k (noise : bool) es i :
   validate_ctor (Build_ctor_d (k_dt k) (if noise then k_Hc k else HList (upd es i x)) (if noise then HList (upd es i x) else k_Hn k)
                    (k_basis k)) = Raise ValueError.
 Proof.
-  intros (H1 & H2 & (ec & Ec & Vc) & (en & En & Vn) & Hb) HH Hi x. unfold validate_ctor. simpl. rewrite H1. simpl.
-  assert (R : forallb dtv_real (dt_vals (k_dt k)) = true).
-  { rewrite forallb_forall. intros v Hv. rewrite Forall_forall in H2. destruct (H2 v Hv); subst; reflexivity. }
-  assert (P : forallb dtv_nonneg (dt_vals (k_dt k)) = true).
-  { rewrite forallb_forall. intros v Hv. rewrite Forall_forall in H2. destruct (H2 v Hv); subst; reflexivity. }
-  rewrite R, P. simpl.
+  intros (H1 & H2 & (ec & Ec & Vc) & (en & En & Vn) & Hb) HH Hi x. rewrite ctor_dt_ok by (cbn [k_dt]; tauto). unfold validate_ctor_rest. cbn [k_dt k_Hc k_Hn k_basis].
   assert (K : forall nz es', valid_H nz d (length (dt_vals (k_dt k))) es' -> i < length es' ->
               e_id x = e_id (nth i es' e0) ->
               validate_H nz (length (dt_vals (k_dt k))) (HList (upd es' i x)) = Raise ValueError \/
@@ -780,7 +775,8 @@ Proof.
 Qed.
 
 (* ------------------------------------------------------------------ extend *)
-Definition entry_dim_ok (dpq : nat) (e : ext_entry) : Prop := p_d (x_pulse e) = dpq ^ length (qubit_list (x_qubits e)).
+Definition entry_dim_ok (dpq : nat) (e : ext_entry) : Prop :=
+  qubit_is_int (x_qubits e) = true /\ p_d (x_pulse e) = dpq ^ length (qubit_list (x_qubits e)).
 Definition valid_extend (x : extend_d) : Prop :=
   x_entries x <> [] /\ Forall (fun e => p_ispulse (x_pulse e) = true) (x_entries x) /\
   Forall (entry_dim_ok (x_dpq x)) (x_entries x) /\
@@ -793,20 +789,23 @@ Definition valid_extend (x : extend_d) : Prop :=
 
 Lemma single_dim dpq e : entry_dim_ok dpq e -> is_single (x_qubits e) = true -> p_d (x_pulse e) = dpq.
 Proof.
-  unfold entry_dim_ok. destruct (x_qubits e) as [q|qs]; simpl.
-  - intros -> _. simpl. lia.
-  - intros -> H. apply Nat.eqb_eq in H. rewrite H. simpl. lia.
+  unfold entry_dim_ok. destruct (x_qubits e) as [q|qs|]; simpl.
+  - intros [_ ->] _. simpl. lia.
+  - intros [_ ->] H. apply Nat.eqb_eq in H. rewrite H. simpl. lia.
+  - intros [H _]. discriminate.
 Qed.
 
 Lemma extend_dim_checks dpq es : Forall (entry_dim_ok dpq) es ->
+  forallb (fun e => qubit_is_int (x_qubits e)) es = true /\
   forallb (fun e => is_single (x_qubits e) || sortedb (qubit_list (x_qubits e)) || (p_d (x_pulse e) =? dpq ^ length (qubit_list (x_qubits e)))) es = true /\
   forallb (fun e => negb (is_single (x_qubits e)) || (p_d (x_pulse e) =? dpq)) es = true /\
   forallb (fun e => is_single (x_qubits e) || (p_d (x_pulse e) =? dpq ^ length (qubit_list (x_qubits e)))) es = true.
 Proof.
   intros HF. repeat split; rewrite forallb_forall; intros e He; rewrite Forall_forall in HF; specialize (HF e He).
-  - rewrite (proj2 (Nat.eqb_eq _ _) HF). apply orb_true_r.
+  - apply HF.
+  - rewrite (proj2 (Nat.eqb_eq _ _) (proj2 HF)). apply orb_true_r.
   - destruct (is_single (x_qubits e)) eqn:E; simpl; auto. rewrite (single_dim dpq e HF E). apply Nat.eqb_refl.
-  - rewrite (proj2 (Nat.eqb_eq _ _) HF). apply orb_true_r.
+  - rewrite (proj2 (Nat.eqb_eq _ _) (proj2 HF)). apply orb_true_r.
 Qed.
 
 Theorem validate_extend_sound x : valid_extend x -> validate_extend x = ok.
@@ -816,7 +815,7 @@ Proof.
   assert (L : (length (x_entries x) =? 0) = false) by (destruct (x_entries x); [congruence | reflexivity]).
   rewrite L. simpl.
   rewrite (proj2 (forallb_Forall (fun e => p_ispulse (x_pulse e)) _) Hp). simpl.
-  destruct (extend_dim_checks (x_dpq x) _ Hd) as (D1 & D2 & D3). rewrite D1, D2, D3. simpl.
+  destruct (extend_dim_checks (x_dpq x) _ Hd) as (D0 & D1 & D2 & D3). rewrite D0, D1, D2, D3. simpl.
   rewrite (all_eqb_const Nat.eqb t _ (Nat.eqb_refl t) Ht). simpl. rewrite Hq. simpl.
   assert (NN : match x_N x with None => true | Some n => fold_right Nat.max 0 (flat_map (fun e => qubit_list (x_qubits e)) (x_entries x)) + 1 <=? n end = true).
   { destruct (x_N x) as [n|]; auto. apply Nat.leb_le. apply HN. reflexivity. }
@@ -858,7 +857,7 @@ Proof.
     - rewrite nth_upd_same by exact Hi. unfold entry_dim_ok. rewrite Hqe, Hde.
       rewrite Forall_forall in Hd. apply (Hd e0'). apply nth_In. exact Hi.
     - rewrite nth_upd_other by exact Hij. rewrite Forall_forall in Hd. apply Hd, nth_In. exact Hj. }
-  destruct (extend_dim_checks (x_dpq x) _ Hd') as (D1 & D2 & D3). rewrite D1, D2, D3. simpl.
+  destruct (extend_dim_checks (x_dpq x) _ Hd') as (D0 & D1 & D2 & D3). rewrite D0, D1, D2, D3. simpl.
   rewrite map_upd.
   assert (Tn : p_dt (x_pulse e0') = t).
   { rewrite Forall_forall in Ht. apply Ht. apply in_map_iff. exists e0'. split; auto. apply nth_In. exact Hi. }
@@ -893,7 +892,7 @@ Proof.
   assert (L : (length (x_entries x) =? 0) = false) by (destruct (x_entries x); [congruence | reflexivity]).
   rewrite L. simpl.
   rewrite (proj2 (forallb_Forall (fun e => p_ispulse (x_pulse e)) _) Hp). simpl.
-  destruct (extend_dim_checks (x_dpq x) _ Hd) as (D1 & D2 & D3). rewrite D1, D2, D3. simpl.
+  destruct (extend_dim_checks (x_dpq x) _ Hd) as (D0 & D1 & D2 & D3). rewrite D0, D1, D2, D3. simpl.
   rewrite (all_eqb_const Nat.eqb t _ (Nat.eqb_refl t) Ht). simpl. fold active.
   destruct (nat_uniqueb active) eqn:U; simpl; [|reflexivity].
   destruct H as [H | (n & Hn & Hlt)].
@@ -1026,4 +1025,213 @@ Proof.
   - intros -> ->. reflexivity.
   - intros s a ->. rewrite rev_app_distr, app_length. cbn [rev app firstn length]. unfold check, square. rewrite Nat.eqb_refl.
     replace (2 <=? length s + 2) with true by (symmetry; apply Nat.leb_le; lia). reflexivity.
+Qed.
+
+(* ------------------------------------------------------------------ non-integer qubit index, periodic repetition count *)
+Theorem extend_complete_nonint_qubit x i e : x_entries x <> [] -> Forall (fun e => p_ispulse (x_pulse e) = true) (x_entries x) ->
+  i < length (x_entries x) -> p_ispulse (x_pulse e) = true -> x_qubits e = QNonInt ->
+  validate_extend (Build_extend_d (upd (x_entries x) i e) (x_ndt x) (x_N x) (x_dpq x) (x_add x) (x_cache_diag x) (x_cache_ff x) (x_omega_given x))
+  = Raise TypeError.
+Proof.
+  intros Hne Hp Hi He Hq. unfold validate_extend. simpl.
+  assert (L : (length (upd (x_entries x) i e) =? 0) = false) by (rewrite upd_len; apply Nat.eqb_neq; lia).
+  rewrite L. simpl.
+  rewrite (forallb_upd_true _ _ i e (proj2 (forallb_Forall (fun e => p_ispulse (x_pulse e)) _) Hp) He). simpl.
+  rewrite forallb_upd_false by (first [exact Hi | rewrite Hq; reflexivity]). reflexivity.
+Qed.
+
+Theorem validate_concat_periodic_spec p n :
+  (p_ispulse p = true -> (1 <= n)%Z -> validate_concat_periodic p n = ok) /\
+  (p_ispulse p = false -> validate_concat_periodic p n = Raise TypeError) /\
+  (p_ispulse p = true -> (n < 1)%Z -> validate_concat_periodic p n = Raise ValueError).
+Proof.
+  unfold validate_concat_periodic. repeat split.
+  - intros -> H. simpl. replace (1 <=? n)%Z with true by (symmetry; apply Z.leb_le; exact H). reflexivity.
+  - intros ->. reflexivity.
+  - intros -> H. simpl. replace (1 <=? n)%Z with false by (symmetry; apply Z.leb_gt; exact H). reflexivity.
+Qed.
+
+(* ------------------------------------------------------------------ remap: the order must be a permutation of range(N) *)
+Lemma perm_of_range_spec order N : is_perm_of_range order N = true ->
+  NoDup order /\ (forall z, In z order -> (0 <= z < Z.of_nat N)%Z).
+Proof.
+  unfold is_perm_of_range. intros H. apply andb_true_iff in H. destruct H as [HL HA]. apply Nat.eqb_eq in HL.
+  set (R := map Z.of_nat (seq 0 N)).
+  assert (NR : NoDup R).
+  { unfold R. apply FinFun.Injective_map_NoDup; [intros a b; apply Nat2Z.inj | apply seq_NoDup]. }
+  assert (LR : length R = N) by (unfold R; rewrite map_length, seq_length; reflexivity).
+  assert (I : incl R order).
+  { intros z Hz. unfold R in Hz. apply in_map_iff in Hz. destruct Hz as [k [<- Hk]].
+    rewrite forallb_forall in HA. specialize (HA k Hk). apply existsb_exists in HA. destruct HA as [y [Hy E]].
+    apply Z.eqb_eq in E. subst. exact Hy. }
+  split.
+  - apply (@NoDup_incl_NoDup Z R order NR); [lia | exact I].
+  - intros z Hz. assert (Hin : In z R) by (apply (@NoDup_length_incl Z R order NR); [lia | exact I | exact Hz]).
+    unfold R in Hin. apply in_map_iff in Hin. destruct Hin as [k [<- Hk]]. apply in_seq in Hk. lia.
+Qed.
+
+(* an entry out of range, or an entry repeated -- at any positions of the order *)
+Theorem validate_remap_complete_order r :
+  p_d (r_pulse r) = r_dpq r ^ r_N r -> r_order_ints r = true ->
+  (exists z, In z (r_order r) /\ ~ (0 <= z < Z.of_nat (r_N r))%Z) \/ ~ NoDup (r_order r) ->
+  validate_remap r = Raise ValueError.
+Proof.
+  intros H1 H2 H3. unfold validate_remap. rewrite H1, Nat.eqb_refl, H2. simpl.
+  destruct (is_perm_of_range (r_order r) (r_N r)) eqn:E; [|reflexivity]. exfalso.
+  destruct (perm_of_range_spec _ _ E) as [ND IR]. destruct H3 as [[z [Hz Hr]] | Hd]; [apply Hr, IR, Hz | apply Hd, ND].
+Qed.
+
+(* ------------------------------------------------------------------ extend: additional noise Hamiltonian, cache flags *)
+Definition with_add (x : extend_d) (H : H_d) (cd : option bool) : extend_d :=
+  Build_extend_d (x_entries x) (x_ndt x) (x_N x) (x_dpq x) (Some H) cd (x_cache_ff x) (x_omega_given x).
+Definition ext_N (x : extend_d) : nat :=
+  match x_N x with None => fold_right Nat.max 0 (flat_map (fun e => qubit_list (x_qubits e)) (x_entries x)) + 1 | Some n => n end.
+
+(* for a valid mapping, the verdict with an additional noise Hamiltonian is that of the checks on this Hamiltonian *)
+Theorem extend_additional_noise x H cd cids nids : valid_extend x -> cd <> Some false ->
+  collect (map (ext_ids false) (x_entries x)) = Ok cids -> collect (map (ext_ids true) (x_entries x)) = Ok nids ->
+  validate_extend (with_add x H cd) =
+  match validate_H true (x_ndt x) H with
+  | Raise e => Raise e
+  | Ok sh => check (shape_eqb sh [x_dpq x ^ ext_N x; x_dpq x ^ ext_N x]) ValueError ;;
+             let add := match H with HList l => entry_ids true l | HNotList => [] end in
+             check (negb (existsb (fun s => mem s nids) add)) ValueError ;;
+             check (uniqueb cids && uniqueb (nids ++ add)) ValueError
+  end.
+Proof.
+  intros (Hne & Hp & Hd & (t & Ht) & Hq & HN & Hff & Hadd & _) Hcd Hc Hn.
+  unfold validate_extend, with_add. cbn [x_entries x_ndt x_N x_dpq x_add x_cache_diag x_cache_ff x_omega_given].
+  assert (L : (length (x_entries x) =? 0) = false) by (destruct (x_entries x); [congruence | reflexivity]).
+  rewrite L. simpl negb. cbn [check bind].
+  rewrite (proj2 (forallb_Forall (fun e => p_ispulse (x_pulse e)) _) Hp). cbn [check bind].
+  destruct (extend_dim_checks (x_dpq x) _ Hd) as (D0 & D1 & D2 & D3). rewrite D0, D1, D2, D3. cbn [check bind].
+  rewrite (all_eqb_const Nat.eqb t _ (Nat.eqb_refl t) Ht). cbn [check bind]. rewrite Hq. cbn [check bind].
+  assert (NN : match x_N x with None => true | Some n => fold_right Nat.max 0 (flat_map (fun e => qubit_list (x_qubits e)) (x_entries x)) + 1 <=? n end = true).
+  { destruct (x_N x) as [n|]; auto. apply Nat.leb_le. apply HN. reflexivity. }
+  rewrite NN. cbn [check bind].
+  assert (FF : match x_cache_ff x with
+               | Some true => x_omega_given x || all_equal_nonempty (optnat_tags (map (fun e => p_omega (x_pulse e)) (x_entries x)))
+                              && forallb (fun e => negb (is_none (p_omega (x_pulse e)))) (x_entries x)
+               | _ => true end = true).
+  { destruct (x_cache_ff x) as [[|]|]; auto. rewrite (Hff eq_refl). reflexivity. }
+  rewrite FF. cbn [check bind].
+  assert (CD : (match cd with Some false => true | _ => false end) = false) by (destruct cd as [[|]|]; auto; congruence).
+  rewrite CD. cbn [andb negb check bind is_none]. rewrite Hc, Hn. unfold ext_N. reflexivity.
+Qed.
+
+Theorem extend_complete_flags x H : valid_extend x ->
+  validate_extend (with_add x H (Some false)) = Raise ValueError /\
+  (x_omega_given x = false -> ~ (all_equal_nonempty (optnat_tags (map (fun e => p_omega (x_pulse e)) (x_entries x))) = true /\
+                                 forallb (fun e => negb (is_none (p_omega (x_pulse e)))) (x_entries x) = true) ->
+   validate_extend (Build_extend_d (x_entries x) (x_ndt x) (x_N x) (x_dpq x) (x_add x) (x_cache_diag x) (Some true) false) = Raise ValueError).
+Proof.
+  intros (Hne & Hp & Hd & (t & Ht) & Hq & HN & Hff & Hadd & _).
+  assert (L : (length (x_entries x) =? 0) = false) by (destruct (x_entries x); [congruence | reflexivity]).
+  destruct (extend_dim_checks (x_dpq x) _ Hd) as (D0 & D1 & D2 & D3).
+  assert (NN : match x_N x with None => true | Some n => fold_right Nat.max 0 (flat_map (fun e => qubit_list (x_qubits e)) (x_entries x)) + 1 <=? n end = true).
+  { destruct (x_N x) as [n|]; auto. apply Nat.leb_le. apply HN. reflexivity. }
+  split.
+  - unfold validate_extend, with_add. cbn [x_entries x_ndt x_N x_dpq x_add x_cache_diag x_cache_ff x_omega_given].
+    rewrite L. simpl negb. cbn [check bind].
+    rewrite (proj2 (forallb_Forall (fun e => p_ispulse (x_pulse e)) _) Hp). cbn [check bind].
+    rewrite D0, D1, D2, D3. cbn [check bind].
+    rewrite (all_eqb_const Nat.eqb t _ (Nat.eqb_refl t) Ht). cbn [check bind]. rewrite Hq. cbn [check bind]. rewrite NN. cbn [check bind].
+    assert (FF : match x_cache_ff x with
+                 | Some true => x_omega_given x || all_equal_nonempty (optnat_tags (map (fun e => p_omega (x_pulse e)) (x_entries x)))
+                                && forallb (fun e => negb (is_none (p_omega (x_pulse e)))) (x_entries x)
+                 | _ => true end = true).
+    { destruct (x_cache_ff x) as [[|]|]; auto. rewrite (Hff eq_refl). reflexivity. }
+    rewrite FF. reflexivity.
+  - intros Ho Hne'. unfold validate_extend. cbn [x_entries x_ndt x_N x_dpq x_add x_cache_diag x_cache_ff x_omega_given].
+    rewrite L. simpl negb. cbn [check bind].
+    rewrite (proj2 (forallb_Forall (fun e => p_ispulse (x_pulse e)) _) Hp). cbn [check bind].
+    rewrite D0, D1, D2, D3. cbn [check bind].
+    rewrite (all_eqb_const Nat.eqb t _ (Nat.eqb_refl t) Ht). cbn [check bind]. rewrite Hq. cbn [check bind]. rewrite NN. cbn [check bind orb].
+    destruct (all_equal_nonempty _ && forallb _ _) eqn:E; [|reflexivity].
+    exfalso. apply Hne'. apply andb_true_iff in E. exact E.
+Qed.
+
+(* ------------------------------------------------------------------ concatenate: filter functions without frequencies *)
+Theorem validate_concat_frequencies l which cff cpc : valid_pulses l -> 2 <= length l ->
+  In which ["fidelity"; "generalized"]%string -> equal_omega l = false ->
+  (cff = Some true \/ cpc = true) ->
+  validate_concat (Build_concat_d (PsList l) which cff cpc false) = Raise ValueError /\
+  validate_concat (Build_concat_d (PsList l) which cff cpc true) = ok.
+Proof.
+  intros V H2 Hw He Hc. unfold validate_concat. cbn [cc_which cc_pulses cc_calc_ff cc_calc_pc cc_omega_given].
+  change (check (mem which ["fidelity"; "generalized"]%string) ValueError) with (validate_option which ["fidelity"; "generalized"]%string).
+  rewrite (proj2 (validate_option_spec _ _) Hw). cbn [bind].
+  replace (length l =? 1) with false by (symmetry; apply Nat.eqb_neq; lia).
+  rewrite (validate_concat_wo_sound l V). cbn [bind]. rewrite He.
+  destruct Hc as [-> | ->].
+  - destruct cpc; split; reflexivity.
+  - destruct cff as [[|]|]; split; reflexivity.
+Qed.
+
+(* ------------------------------------------------------------------ infidelity: smallness parameter, convergence test *)
+Theorem infidelity_smallness a : valid_analysis a -> (2 < length (s_shape (a_spectrum a))) ->
+  validate_infidelity (Build_analysis_d (a_pulse a) (a_which a) (a_ids a) (a_spectrum a) (a_omega_kind a) (a_omega_len a) (a_omega_tag a)
+                         true (a_test_conv a) (a_omega_isdict a) (a_spacing a)) = Raise NotImplementedError.
+Proof.
+  intros (Hw & Hi & Ht & Hs & Ho & Hc & Hsh & Hh & _) H3. unfold validate_infidelity.
+  cbn [a_which a_ids a_pulse a_test_conv a_spectrum a_omega_kind a_omega_tag a_omega_len a_smallness].
+  rewrite (proj2 (validate_option_spec _ _) Hw). cbn [bind].
+  rewrite (validate_ids_sound _ _ Hi). cbn [bind]. rewrite Ht, Hs, Ho. cbn [andb check bind].
+  assert (W : (if String.eqb (a_which a) "total" then ok
+               else check (omega_matches (a_pulse a) (a_omega_tag a)) ValueError;; check (p_pc (a_pulse a)) CalculationError) = ok).
+  { destruct Hw as [Hw|[Hw|[]]]; rewrite <- Hw; simpl; auto. destruct (Hc (eq_sym Hw)) as [-> ->]. reflexivity. }
+  rewrite W. cbn [bind]. rewrite (validate_spectrum_sound _ _ _ Hsh Hh). cbn [bind andb].
+  replace (2 <? length (s_shape (a_spectrum a))) with true by (symmetry; apply Nat.ltb_lt; exact H3). reflexivity.
+Qed.
+Theorem infidelity_convergence_test p w ids s ok_kind olen otag sm isdict spacing :
+  In w ["total"; "correlations"]%string -> (forall l, ids = Some l -> incl l (map n_id (p_n p))) ->
+  let a := Build_analysis_d p w ids s ok_kind olen otag sm true isdict spacing in
+  (s_kind s <> ACallable -> validate_infidelity a = Raise TypeError) /\
+  (s_kind s = ACallable -> isdict = false -> validate_infidelity a = Raise TypeError) /\
+  (s_kind s = ACallable -> isdict = true -> ~ In spacing ["linear"; "log"]%string -> validate_infidelity a = Raise ValueError) /\
+  (s_kind s = ACallable -> isdict = true -> In spacing ["linear"; "log"]%string -> validate_infidelity a = ok).
+Proof.
+  intros Hw Hi a. unfold validate_infidelity, a.
+  cbn [a_which a_ids a_pulse a_test_conv a_spectrum a_omega_isdict a_spacing].
+  rewrite (proj2 (validate_option_spec _ _) Hw). cbn [bind]. rewrite (validate_ids_sound _ _ Hi). cbn [bind].
+  repeat split.
+  - intros Hk. destruct (s_kind s); try reflexivity. congruence.
+  - intros -> ->. reflexivity.
+  - intros -> -> Hs. cbn [check bind].
+    change (check (mem spacing ["linear"; "log"]%string) ValueError) with (validate_option spacing ["linear"; "log"]%string).
+    apply validate_option_complete. exact Hs.
+  - intros -> -> Hs. cbn [check bind].
+    change (check (mem spacing ["linear"; "log"]%string) ValueError) with (validate_option spacing ["linear"; "log"]%string).
+    apply validate_option_spec. exact Hs.
+Qed.
+
+(* corruptions of the additional noise Hamiltonian of extend, at every position of it *)
+Theorem extend_complete_additional_entry x cd es i c : valid_extend x -> cd <> Some false ->
+  valid_H true (x_dpq x ^ ext_N x) (x_ndt x) es -> i < length es ->
+  validate_extend (with_add x (HList (upd es i (apply_e (x_dpq x ^ ext_N x) (x_ndt x) c (nth i es e0)))) cd) = Raise (ecorr_class c).
+Proof.
+  intros V Hcd VH Hi. pose proof V as V'. destruct V' as (_ & _ & _ & _ & _ & _ & _ & _ & (cids & nids & Hc & Hn & _)).
+  rewrite (extend_additional_noise x _ cd cids nids V Hcd Hc Hn).
+  rewrite (validate_H_complete true _ _ es i c VH Hi). reflexivity.
+Qed.
+Theorem extend_complete_additional_dimension x cd es d' : valid_extend x -> cd <> Some false ->
+  valid_H true d' (x_ndt x) es -> d' <> x_dpq x ^ ext_N x ->
+  validate_extend (with_add x (HList es) cd) = Raise ValueError.
+Proof.
+  intros V Hcd VH Hd. pose proof V as V'. destruct V' as (_ & _ & _ & _ & _ & _ & _ & _ & (cids & nids & Hc & Hn & _)).
+  rewrite (extend_additional_noise x _ cd cids nids V Hcd Hc Hn).
+  rewrite (validate_H_sound true _ _ es VH). unfold shape_eqb. cbn [length all2 Nat.eqb andb].
+  replace (d' =? x_dpq x ^ ext_N x) with false by (symmetry; apply Nat.eqb_neq; exact Hd). reflexivity.
+Qed.
+Theorem extend_complete_additional_identifier x cd es cids nids s : valid_extend x -> cd <> Some false ->
+  collect (map (ext_ids false) (x_entries x)) = Ok cids -> collect (map (ext_ids true) (x_entries x)) = Ok nids ->
+  valid_H true (x_dpq x ^ ext_N x) (x_ndt x) es -> In s (entry_ids true es) -> In s nids ->
+  validate_extend (with_add x (HList es) cd) = Raise ValueError.
+Proof.
+  intros V Hcd Hc Hn VH Hs1 Hs2.
+  rewrite (extend_additional_noise x _ cd cids nids V Hcd Hc Hn).
+  rewrite (validate_H_sound true _ _ es VH), shape_eqb_refl. cbn [check bind].
+  assert (E : existsb (fun s0 => mem s0 nids) (entry_ids true es) = true).
+  { apply existsb_exists. exists s. split; [exact Hs1|]. apply existsb_exists. exists s. split; [exact Hs2 | apply String.eqb_refl]. }
+  rewrite E. reflexivity.
 Qed.
